@@ -26,6 +26,7 @@ type e2eScn struct {
 	dups           bool
 	depthLimit     int64 // 0 = whole DAG
 	customStore    bool
+	idleCfg        bool // pull with a store passed as an open option: a configurer is registered too, and returns nothing
 	storeViaCfg    bool // pull only: the per-channel store comes from a transport configurer (survives a process restart) instead of an open option
 	forcePause     bool
 	limits         []uint64 // initial limit and raises; a trailing 0 lifts the limit
@@ -44,8 +45,8 @@ func (s e2eScn) String() string {
 	if s.pull {
 		dir = "pull"
 	}
-	return fmt.Sprintf("%s dups=%v depthLimit=%d customStore=%v(viaConfigurer=%v) forcePause=%v limits=%v finalization=%v(onVoucher=%v) pauseAfter=%d voucherAfter=%d fault=%q@%d atOpen=%v acceptLost=%v",
-		dir, s.dups, s.depthLimit, s.customStore, s.storeViaCfg, s.forcePause, s.limits, s.reqFinal, s.finalOnVoucher, s.pauseAfter, s.voucherAfter, s.fault, s.faultAtLimit, s.faultAtOpen, s.acceptLost)
+	return fmt.Sprintf("%s dups=%v depthLimit=%d customStore=%v(viaConfigurer=%v idleConfigurer=%v) forcePause=%v limits=%v finalization=%v(onVoucher=%v) pauseAfter=%d voucherAfter=%d fault=%q@%d atOpen=%v acceptLost=%v",
+		dir, s.dups, s.depthLimit, s.customStore, s.storeViaCfg, s.idleCfg, s.forcePause, s.limits, s.reqFinal, s.finalOnVoucher, s.pauseAfter, s.voucherAfter, s.fault, s.faultAtLimit, s.faultAtOpen, s.acceptLost)
 }
 
 const e2eCaseTimeout = 3 * time.Second
@@ -179,6 +180,12 @@ func runE2E(t *rapid.T, scn e2eScn, w *e2eWorld, pl payload, sel datamodel.Node,
 			return []datatransfer.TransportOption{gstransport.UseStore(custom.linkSystem(false))}
 		}
 		_ = b.mgr.RegisterTransportConfigurer(e2eType, b.configurer)
+	}
+	if scn.customStore && scn.pull && !scn.storeViaCfg && scn.idleCfg {
+		// a transport configurer is registered for the voucher type but has nothing to say
+		// about this voucher: the options passed with the open call stay in force
+		a.configurer = func(datatransfer.ChannelID, datatransfer.TypedVoucher) []datatransfer.TransportOption { return nil }
+		_ = a.mgr.RegisterTransportConfigurer(e2eType, a.configurer)
 	}
 	if scn.customStore && scn.pull && scn.storeViaCfg {
 		a.configurer = func(datatransfer.ChannelID, datatransfer.TypedVoucher) []datatransfer.TransportOption {
@@ -518,6 +525,7 @@ func TestC01_E2E(t *testing.T) {
 			dups:        rapid.Bool().Draw(t, "dups"),
 			customStore: rapid.IntRange(0, 2).Draw(t, "customStore") == 0,
 			storeViaCfg: rapid.Bool().Draw(t, "storeViaConfigurer"),
+			idleCfg:     rapid.Bool().Draw(t, "configurerWithNothingToSay"),
 			forcePause:  rapid.IntRange(0, 4).Draw(t, "forcePause") == 0,
 			reqFinal:    rapid.IntRange(0, 2).Draw(t, "finalization") == 0,
 		}
